@@ -313,7 +313,10 @@ def r4_tables(ctx):
                             return "NONE"
                         return tab[a]
 
-                    got = Interp(en.name, stubs={"typeorder": to}).run(m.node, {rv: "SELF", other: "O", f"{rv}.types": members, f"{rv}.__args__": members, c.name: "THE-CLASS"})
+                    # (the other type is not a combination of the same kind: that case is decided in
+                    # more.combination_against_combination)
+                    plain = {"getattr": lambda o, name, default=None: default, "isinstance": lambda a, b: False, "type": lambda x: "TYPE-OF-" + str(x)}
+                    got = Interp(en.name, stubs={"typeorder": to, **plain}).run(m.node, {rv: "SELF", other: "O", f"{rv}.types": members, f"{rv}.__args__": members, c.name: "THE-CLASS"})
                     cases += 1
                     S = frozenset(x for x in assign if x != "NONE")
                     table[tuple(sorted(S))] = got
